@@ -155,3 +155,54 @@ Corollary literal_neighbours_stmt : forall isln lower printable ctx s t,
   template isln lower ctx ([64; 40] ++ (quote printable s ++ [32; 38; 32] ++ quote printable t) ++ [41])
     = Ok (s ++ t, O).
 Proof. intros isln lower p ctx s t H1 H2. exact (literal_neighbours isln lower p H1 H2 ctx s t). Qed.
+
+(* ---------------------------------------------------------------------------------------------- *)
+(* the literal embedded in a template: body text before it passes through, what follows is evaluated as a template
+   of its own (proofs/ExEmbedded.v) *)
+From Verif Require Import proofs.ExEmbedded.
+
+Lemma expr_opt_quoted lower printable ctx s : printable 10 = false -> valid_codepoints s ->
+  expr_opt lower ctx (quote printable s) = Some s.
+Proof.
+  intros Hnl Hv. unfold expr_opt, eval_expression. rewrite lex_quoted.
+  change {| tk := TEXT; tx := quote printable s |} with (tok TEXT (quote printable s)).
+  rewrite (parse_text _ _ (text_value_quote _ _ Hnl Hv)). reflexivity.
+Qed.
+
+Theorem literal_embedded_stmt : forall isln lower printable ctx b1 s b2,
+  isln 0 = false -> isln r_dot = false -> isln r_at = false -> printable 10 = false ->
+  valid_codepoints s -> nulfree s -> nulfree b1 -> nulfree b2 ->
+  no_start isln lower (Some (map fst ctx)) b1 = true -> at_open b1 = false ->
+  exists o2 n2, template isln lower ctx b2 = Ok (o2, n2) /\
+    template isln lower ctx (b1 ++ [64; 40] ++ quote printable s ++ [41] ++ b2) = Ok (unescape_at b1 ++ s ++ o2, n2).
+Proof.
+  intros isln lower printable ctx b1 s b2 H0 Hd Ha Hnl Hv Hn Hn1 Hn2 Hns Hao.
+  destruct (template_embedded isln lower H0 Hd Ha (expr_opt lower ctx) (map fst ctx) b1 (quote printable s) b2
+              Hn1 (nulfree_quote _ _ Hn) Hn2 Hns Hao (quoted_closed printable s Hnl)) as (o2 & n2 & HB & HT).
+  exists o2, n2. split; [exact HB|]. unfold template. rewrite (expr_opt_quoted lower printable ctx s Hnl Hv) in HT. exact HT.
+Qed.
+
+(* any closed expression in place of the literal *)
+Theorem template_embedded_stmt : forall isln lower (eval_expr : ExScanner.text -> option ExScanner.text) tops b1 e b2,
+  isln 0 = false -> isln r_dot = false -> isln r_at = false ->
+  nulfree b1 -> nulfree e -> nulfree b2 ->
+  no_start isln lower (Some tops) b1 = true -> at_open b1 = false -> closed_expr e ->
+  exists o2 n2, template_with isln lower eval_expr tops b2 = Ok (o2, n2) /\
+    template_with isln lower eval_expr tops (b1 ++ r_at :: r_lparen :: e ++ r_rparen :: b2) =
+    Ok (unescape_at b1 ++ (match eval_expr e with Some v => v | None => [] end) ++ o2,
+        match eval_expr e with Some _ => n2 | None => S n2 end).
+Proof.
+  intros isln lower ev tops b1 e b2 H0 Hd Ha. exact (template_embedded isln lower H0 Hd Ha ev tops b1 e b2).
+Qed.
+
+(* the lexer half of "wherever the literal stands": followed by ANY text, the quoted form is one TEXT token whose value
+   is s — unless s ends in a backslash and a quote occurs later (F10b) *)
+From Verif Require Import proofs.ExRender.
+
+Theorem literal_one_token_stmt : forall printable s rest,
+  printable 10 = false -> valid_codepoints s -> text_follow_ok s rest = true ->
+  lex_one (quote printable s ++ rest) = Some (TEXT, false, quote printable s, rest)
+  /\ text_value (quote printable s) = Some s.
+Proof.
+  intros p s rest Hnl Hv Hf. split; [apply lex_one_text; exact Hf|apply text_value_quote; assumption].
+Qed.
